@@ -165,6 +165,10 @@ func C05ExtraConfigs(thorough bool) []*world.Config {
 	var cs []*world.Config
 	cs = append(cs, world.IntCfg(2, []int{-2, 0, 1, 2, 4}, []interface{}{[]int{1}, []int{2, 3}}, []int{}, B, "none"))
 	cs = append(cs, world.IntCfg(2, []int{1, 2, 3, 4, 8}, []interface{}{world.SVal{Asdf: "a", Q: true}, world.SVal{Asdf: "b"}}, world.SVal{}, M, "none"))
+	cs = append(cs, world.IntCfg(2, []int{-2, 0, 1, 2, 4}, []interface{}{[]int{1}, []int{2, 3}}, []int{}, M, "none"))
+	cs = append(cs, world.IntCfg(4, []int{1, 2, 3, 5, 8}, []interface{}{world.TVal{Tags: []string{"x"}}, world.TVal{Tags: []string{"y", "z"}, M: map[string]int{"q": 1}}}, world.TVal{}, M, "none"))
+	cs = append(cs, depth(world.IntCfg(4, []int{1, 2, 3, 5, 8}, []interface{}{world.TVal{Tags: []string{"x"}}, world.TVal{Tags: []string{"y", "z"}, M: map[string]int{"q": 1}}}, world.TVal{}, B, "big"), 5))
+	cs = append(cs, world.BytesCfg(4, []uint8{0, 1, 0, 0, 1}, M, "none"))
 	cs = append(cs, world.Int64Cfg(2, []int64{-8, -3, 0, 2, 4, 1 << 40}, M, "none"))
 	cs = append(cs, world.Uint64Cfg(2, []uint64{0, 1, 2, 4, 1<<53 + 1, 1 << 63}, B, "none"))
 	cs = append(cs, depth(world.Uint64Cfg(2, []uint64{0, 1, 2, 4, 1<<53 + 1, 1 << 63}, M, "big"), 6))
